@@ -1,6 +1,8 @@
 package main
 
 import (
+	"go/token"
+
 	"golang.org/x/tools/go/ssa"
 )
 
@@ -117,6 +119,9 @@ func (a *bitFlow) run(fn *ssa.Function, entryBad bool, assume Assume, visit func
 		work = work[1:]
 		st := step(b, false)
 		for _, s := range a.p.prunedSuccs(b, assume) {
+			if failureEdgeToReturn(fn, b, s) {
+				continue // this edge only carries the failure case of a shared `return err`
+			}
 			if set(s.Index, st) {
 				work = append(work, s)
 			}
@@ -207,6 +212,64 @@ func (p *Prog) reaches(fn *ssa.Function, target func(*ssa.Function) bool) bool {
 func (p *Prog) callReaches(site ssa.CallInstruction, target func(*ssa.Function) bool) bool {
 	for _, g := range p.callees(site) {
 		if p.reaches(g, target) {
+			return true
+		}
+	}
+	return false
+}
+
+// failureEdgeToReturn: s is nothing but `return ..., phi` and on the edge from b the error operand is a
+// value that b's branch just established to be non-nil (the idiom `err := f(); if err == nil { err =
+// g() }; return err`): along this edge the shared return is a failure return.
+func failureEdgeToReturn(fn *ssa.Function, b, s *ssa.BasicBlock) bool {
+	rt, ok := terminator(s).(*ssa.Return)
+	if !ok {
+		return false
+	}
+	for _, ins := range s.Instrs[:len(s.Instrs)-1] {
+		switch ins.(type) {
+		case *ssa.Phi, *ssa.DebugRef:
+		default:
+			return false
+		}
+	}
+	ei := errResultIndex(fn)
+	if ei < 0 || ei >= len(rt.Results) {
+		return false
+	}
+	phi, ok := rt.Results[ei].(*ssa.Phi)
+	if !ok || phi.Block() != s {
+		return false
+	}
+	iff, ok := terminator(b).(*ssa.If)
+	if !ok || len(b.Succs) != 2 || b.Succs[0] == b.Succs[1] {
+		return false
+	}
+	bo, ok := iff.Cond.(*ssa.BinOp)
+	if !ok || (bo.Op != token.NEQ && bo.Op != token.EQL) {
+		return false
+	}
+	var tested ssa.Value
+	switch {
+	case isNilConst(bo.Y):
+		tested = bo.X
+	case isNilConst(bo.X):
+		tested = bo.Y
+	default:
+		return false
+	}
+	if !isErrType(tested.Type()) {
+		return false
+	}
+	nonNilSucc := b.Succs[0]
+	if bo.Op == token.EQL {
+		nonNilSucc = b.Succs[1]
+	}
+	if nonNilSucc != s {
+		return false
+	}
+	for i, pr := range s.Preds {
+		if pr == b && i < len(phi.Edges) && phi.Edges[i] == tested {
 			return true
 		}
 	}
